@@ -44,6 +44,14 @@ CLAIMED = {
              'model to the code; cancel/purge/queue-close races are monitored on every explored history.',
         note=CONC_NOTE,
         technique='Coq inductive invariant over a per-job transition system + lock-step trace validation', ref='5 C10'),
+    'C11': dict(
+        text='Machine-checked: in every reachable state (= every crash point) a delivered item has been acknowledged at most once and '
+             'only after its worker function returned; the acknowledgement step is enabled only for the goroutine that ran the job, '
+             'after Finished was stored. Lock-step replay ties the model (incl. the Acknowledge call inside job.Close) to the code. '
+             'Adapter call logs are monitored on every explored history: ack ids issued by the adapter, ack after processing, nothing '
+             'lost, recovery of a pre-loaded adapter without prompting; acknowledge / dequeue / enqueue faults injected.',
+        note=CONC_NOTE + ' The adapter is a specification object (recording adapter).',
+        technique='Coq inductive invariant over a per-job transition system + lock-step trace validation', ref='5 C11'),
     'C12': dict(
         text='Machine-checked: every valid-UTF-8 ID survives Go\'s JSON string encoding/decoding (all escape classes, all scalar values); '
              'the five status strings round-trip and unknown ones are rejected; decode(encode(id, status, payload)) returns the same '
